@@ -138,7 +138,9 @@ func encodeOne(v any) string {
 	}
 	switch x := v.(type) {
 	case string:
-		return "s:" + x
+		// length-prefixed so that a separator byte inside a component cannot shift the
+		// boundary between the components of a composite key
+		return "s" + strconv.Itoa(len(x)) + ":" + x
 	case bool:
 		return "b:" + strconv.FormatBool(x)
 	}
